@@ -18,10 +18,16 @@
 import Chrono.Proofs.ParsedZonedL
 import Chrono.Proofs.ParsedZoneL
 import Chrono.Proofs.ParsedTsCompleteL
+import Chrono.Proofs.ParsedZFieldsL
+import Chrono.Proofs.ParsedKindsL
+import Chrono.Proofs.ParsedLeapTsL
+import Chrono.Proofs.ParsedIsoSpecL
+import Chrono.Proofs.ParsedSettersL
 
 namespace Chrono.Props.C14
 open Chrono Chrono.M Chrono.Spec Chrono.Spec.Fields Chrono.Spec.Ts Chrono.Proofs Chrono.Proofs.ParsedRes Chrono.Extracted
-open Chrono.Proofs.ParsedZone Chrono.M.TzL
+open Chrono.Proofs.ParsedZone Chrono.M.TzL Chrono.Proofs.ParsedZF Chrono.Proofs.ParsedKinds Chrono.Proofs.ParsedLeap
+open Chrono.Proofs.ParsedIsoSpec Chrono.Proofs.ParsedSetters Chrono.Spec.Strftime
 
 attribute [local instance] exceptDecEq
 
@@ -823,6 +829,722 @@ example :
         minute := some 0 } ⟨1616893200, 3600, 7200⟩
       = .ok (.ok ⟨⟨dateOfYo 2021 87, ⟨3600, 0⟩⟩, 7200⟩) := by
   decide +kernel
+
+/-! ### field-path completeness of the zone-aware resolvers (audit gap MEDIUM-1) -/
+
+/-- completeness of `to_datetime` on the FIELD path (what `%Y-%m-%d %H:%M:%S %z` reads): for every
+well-formed zone-aware value `z` whose wall clock is the existing day `(Y, o)` at the time of day `t`
+(leap seconds included), a record
+  * whose date fields — any subset containing a documented combination — agree with the day, with
+    determinate year groups (as in `date_complete`),
+  * whose time fields agree with `t` and are sufficient (as in `time_complete`),
+  * whose offset field is `z`'s offset — or is absent while a timestamp is supplied and `z` is at UTC,
+  * and whose timestamp field, if supplied, is the instant of `z` (or one more when `z` is a leap
+    second, the documented allowance)
+resolves to exactly `z`.  (On `date_complete`, `time_complete`, C04's `utc_of_fromUtc` /
+`local_of_fromLocal`.) -/
+theorem to_datetime_complete_fields (p : Parsed) (hp : InType p) (z : Zoned) (hz : ZInv z)
+    (Y : Int) (o : Nat) (t : Time) (hvd : VD Y o) (ht : TStrict t)
+    (hl : Zoned.naive_local z = .ok ⟨dateOfYo Y o, t⟩)
+    (hag : DateAgrees p Y o)
+    (hdY : GroupDeterminate p.year p.year_div_100 p.year_mod_100 Y)
+    (hdI : ∀ w, (dateOfYo Y o).iso_week = .ok w →
+      GroupDeterminate p.isoyear p.isoyear_div_100 p.isoyear_mod_100 (IsoWeek.year w))
+    (hc : UsesCalendar p ∨ UsesIso p) (hta : TimeAgrees p t) (hts : TimeSufficient p)
+    (hoff : p.offset = some z.off ∨ (p.offset = none ∧ p.timestamp ≠ none ∧ z.off = 0))
+    (hstamp : ∀ g, p.timestamp = some g →
+      g = instSecs z.utc ∨ (1000000000 ≤ z.utc.time.frac ∧ g = instSecs z.utc + 1)) :
+    Parsed.to_datetime p = .ok (.ok z) :=
+  to_datetime_complete_fields' p hp z hz Y o t hvd ht hl hag hdY hdI hc hta hts hoff hstamp
+
+/-- completeness of `to_datetime_with_timezone` for the fixed zone `z.off` (`Utc`: 0) on the FIELD
+path: as above; an offset field, if supplied, is the zone's offset.  `hrep`: a supplied timestamp is
+not beyond the last representable second — this can only fail for the `+1` reading of a leap second
+in the last second of the representable range, where this resolver (unlike `to_datetime`) answers
+OUT_OF_RANGE because it first converts the timestamp to a date-time: `tz_leap_at_max` below. -/
+theorem to_datetime_with_timezone_complete_fields (p : Parsed) (hp : InType p) (z : Zoned) (hz : ZInv z)
+    (Y : Int) (o : Nat) (t : Time) (hvd : VD Y o) (ht : TStrict t)
+    (hl : Zoned.naive_local z = .ok ⟨dateOfYo Y o, t⟩)
+    (hag : DateAgrees p Y o)
+    (hdY : GroupDeterminate p.year p.year_div_100 p.year_mod_100 Y)
+    (hdI : ∀ w, (dateOfYo Y o).iso_week = .ok w →
+      GroupDeterminate p.isoyear p.isoyear_div_100 p.isoyear_mod_100 (IsoWeek.year w))
+    (hc : UsesCalendar p ∨ UsesIso p) (hta : TimeAgrees p t) (hts : TimeSufficient p)
+    (hoff : ∀ x, p.offset = some x → x = z.off)
+    (hstamp : ∀ g, p.timestamp = some g →
+      g = instSecs z.utc ∨ (1000000000 ≤ z.utc.time.frac ∧ g = instSecs z.utc + 1))
+    (hrep : ∀ g, p.timestamp = some g → g ≤ TS_MAX) :
+    Parsed.to_datetime_with_timezone p z.off = .ok (.ok z) :=
+  to_datetime_tz_complete_fields p hp z hz Y o t hvd ht hl hag hdY hdI hc hta hts hoff hstamp hrep
+
+/-- when the timestamp field is exactly the instant of `z` (what a record derived from `z` holds),
+`hrep` is automatic -/
+theorem to_datetime_with_timezone_complete_fields_exact (p : Parsed) (hp : InType p) (z : Zoned)
+    (hz : ZInv z) (Y : Int) (o : Nat) (t : Time) (hvd : VD Y o) (ht : TStrict t)
+    (hl : Zoned.naive_local z = .ok ⟨dateOfYo Y o, t⟩)
+    (hag : DateAgrees p Y o)
+    (hdY : GroupDeterminate p.year p.year_div_100 p.year_mod_100 Y)
+    (hdI : ∀ w, (dateOfYo Y o).iso_week = .ok w →
+      GroupDeterminate p.isoyear p.isoyear_div_100 p.isoyear_mod_100 (IsoWeek.year w))
+    (hc : UsesCalendar p ∨ UsesIso p) (hta : TimeAgrees p t) (hts : TimeSufficient p)
+    (hoff : ∀ x, p.offset = some x → x = z.off)
+    (hstamp : ∀ g, p.timestamp = some g → g = instSecs z.utc) :
+    Parsed.to_datetime_with_timezone p z.off = .ok (.ok z) :=
+  to_datetime_tz_complete_fields p hp z hz Y o t hvd ht hl hag hdY hdI hc hta hts hoff
+    (fun g hg => Or.inl (hstamp g hg))
+    (fun g hg => by rw [hstamp g hg]; exact (Chrono.Proofs.Ts.instSecs_range z.utc hz.1).2)
+
+/-- the excluded input of `to_datetime_with_timezone_complete_fields` (kernel-checked): the leap
+second 23:59:60 of the last representable day, timestamp field = its instant + 1 = `TS_MAX + 1`.
+`to_naive_datetime_with_offset` and `to_datetime` accept it (the documented allowance),
+`to_datetime_with_timezone(&Utc)` reports OUT_OF_RANGE (it converts the timestamp first); with the
+exact timestamp `TS_MAX` all three resolve. -/
+theorem tz_leap_at_max :
+    let p : Parsed := {
+      year := some 262142, month := some 12, day := some 31, hour_div_12 := some 1,
+      hour_mod_12 := some 11, minute := some 59, second := some 60, offset := some 0,
+      timestamp := some 8210266876800 }
+    TS_MAX + 1 = 8210266876800 ∧
+    Parsed.to_naive_datetime_with_offset p 0 = .ok (.ok ⟨dateOfYo 262142 365, ⟨86399, 1000000000⟩⟩) ∧
+    Parsed.to_datetime p = .ok (.ok ⟨⟨dateOfYo 262142 365, ⟨86399, 1000000000⟩⟩, 0⟩) ∧
+    Parsed.to_datetime_with_timezone p 0 = .ok (.error .outOfRange) ∧
+    Parsed.to_datetime_with_timezone { p with timestamp := some 8210266876799 } 0
+      = .ok (.ok ⟨⟨dateOfYo 262142 365, ⟨86399, 1000000000⟩⟩, 0⟩) := by
+  decide +kernel
+
+/-- non-vacuity of the two theorems: 2024-02-29T12:00:00.5+01:00, all hypotheses that are not
+computations exhibited, both resolvers evaluated -/
+example :
+    let p : Parsed := {
+      year := some 2024, month := some 2, day := some 29, hour_div_12 := some 1,
+      hour_mod_12 := some 0, minute := some 0, second := some 0, nanosecond := some 500000000,
+      offset := some 3600, timestamp := some 1709204400 }
+    let z : Zoned := ⟨⟨dateOfYo 2024 60, ⟨39600, 500000000⟩⟩, 3600⟩
+    ZInv z ∧ VD 2024 60 ∧ TStrict ⟨43200, 500000000⟩ ∧
+    Zoned.naive_local z = .ok ⟨dateOfYo 2024 60, ⟨43200, 500000000⟩⟩ ∧
+    UsesCalendar p ∧ TimeSufficient p ∧ p.offset = some z.off ∧ p.timestamp = some (instSecs z.utc) ∧
+    Parsed.to_datetime p = .ok (.ok z) ∧ Parsed.to_datetime_with_timezone p 3600 = .ok (.ok z) := by
+  refine ⟨by decide +kernel, by unfold VD; decide, by decide, by decide +kernel,
+    ⟨Or.inl (by simp), Or.inl ⟨by simp, by simp⟩⟩, ⟨by simp, by simp, by simp, fun _ => by simp⟩, rfl,
+    by decide +kernel, by decide +kernel, by decide +kernel⟩
+
+/-- completeness for ANY time zone on the field path: `z` is a well-formed value whose wall clock is
+the day `(Y, o)` at `t`; date and time fields agree with it and are sufficient; the zone's guessed
+offset (`GuessIs`) is `z`'s offset whenever a timestamp is supplied; the zone answers the wall clock
+with well-formed, pairwise different candidates `m` among which `z` is the only one consistent with
+the offset and timestamp fields ⇒ exactly `z`.  (Compared with `tz_gen_resolution`, the naive
+resolution is no longer a hypothesis: it follows from field agreement.) -/
+theorem tz_gen_complete_fields (p : Parsed) (hp : InType p) (ofu : NaiveDT → Res Int)
+    (fl : NaiveDT → Res (Mapped Zoned)) (z : Zoned) (hz : ZInv z)
+    (Y : Int) (o : Nat) (t : Time) (hvd : VD Y o) (ht : TStrict t)
+    (hl : Zoned.naive_local z = .ok ⟨dateOfYo Y o, t⟩)
+    (hag : DateAgrees p Y o)
+    (hdY : GroupDeterminate p.year p.year_div_100 p.year_mod_100 Y)
+    (hdI : ∀ w, (dateOfYo Y o).iso_week = .ok w →
+      GroupDeterminate p.isoyear p.isoyear_div_100 p.isoyear_mod_100 (IsoWeek.year w))
+    (hc : UsesCalendar p ∨ UsesIso p) (hta : TimeAgrees p t) (hts : TimeSufficient p)
+    (g : Int) (hg : GuessIs p ofu g) (hgz : p.timestamp ≠ none → g = z.off)
+    (m : Mapped Zoned) (hm : fl ⟨dateOfYo Y o, t⟩ = .ok m) (hcand : ∀ c ∈ m.toList, ZInv c)
+    (hmem : z ∈ m.toList) (hcons : Consistent p z) (hnd : ∀ a b, m = .ambiguous a b → a ≠ b)
+    (hother : ∀ c ∈ m.toList, c ≠ z → ¬ Consistent p c) :
+    Parsed.to_datetime_with_timezone_gen p ofu fl = .ok (.ok z) :=
+  gen_complete_fields p hp ofu fl z hz Y o t hvd ht hl hag hdY hdI hc hta hts g hg hgz m hm hcand hmem
+    hcons hnd hother
+
+/-- completeness for the STEP ZONES on the field path: `z` is a value of the step zone `zn` reading
+the day `(Y, o)` at `t` on the zone's wall clock (`StepCandidate`: well formed, that wall clock, the
+zone's offset at its own instant); date and time fields agree and are sufficient; `z` is consistent
+with the offset and timestamp fields and no other value of the zone with that wall clock is — outside
+a fold there is no other one, inside a fold the offset field or the timestamp field must single `z`
+out ⇒ `to_datetime_with_timezone(&zn)` returns exactly `z`.
+`hq` concerns only a timestamp field that is not the instant of `z`, i.e. the `+1` reading of a leap
+second: that instant is representable and on `z`'s side of the transition.  `hrep`: every UTC reading
+the zone lists for the wall clock is representable (chrono's provided `from_local_datetime` answers
+`None` for the whole lookup otherwise; only within a day of the ends of the range). -/
+theorem step_zone_complete (p : Parsed) (hp : InType p) (zn : StepZone) (h1 : OffValid zn.o1)
+    (h2 : OffValid zn.o2) (z : Zoned) (Y : Int) (o : Nat) (t : Time) (hvd : VD Y o) (ht : TStrict t)
+    (hag : DateAgrees p Y o)
+    (hdY : GroupDeterminate p.year p.year_div_100 p.year_mod_100 Y)
+    (hdI : ∀ w, (dateOfYo Y o).iso_week = .ok w →
+      GroupDeterminate p.isoyear p.isoyear_div_100 p.isoyear_mod_100 (IsoWeek.year w))
+    (hc : UsesCalendar p ∨ UsesIso p) (hta : TimeAgrees p t) (hts : TimeSufficient p)
+    (hcand : StepCandidate zn ⟨dateOfYo Y o, t⟩ z) (hcons : Consistent p z)
+    (hq : ∀ ts, p.timestamp = some ts → ts ≠ instSecs z.utc → ts ≤ TS_MAX ∧ zn.offset_at ts = z.off)
+    (hrep : ∀ o' ∈ (zn.local_offsets (instSecs ⟨dateOfYo Y o, t⟩)).toList,
+      InRangeSecs (instSecs ⟨dateOfYo Y o, t⟩ - o'))
+    (hother : ∀ c, StepCandidate zn ⟨dateOfYo Y o, t⟩ c → c ≠ z → ¬ Consistent p c) :
+    Parsed.to_datetime_with_step_zone p zn = .ok (.ok z) :=
+  step_complete_fields p hp zn h1 h2 z Y o t hvd ht hag hdY hdI hc hta hts hcand hcons hq hrep hother
+
+/-- every value of a step zone is found by the zone's local-time lookup: a `StepCandidate` for the
+local date-time `l` is among the candidates `from_local_datetime` returns for `l` (and the candidates
+are pairwise different), provided all listed UTC readings are representable -/
+theorem step_zone_lookup_complete (zn : StepZone) (h1 : OffValid zn.o1) (h2 : OffValid zn.o2)
+    (l : NaiveDT) (hl : NDTInv l) (c : Zoned) (hc : StepCandidate zn l c)
+    (hrep : ∀ o ∈ (zn.local_offsets (instSecs l)).toList, InRangeSecs (instSecs l - o)) :
+    ∃ m, zn.from_local_datetime l = .ok m ∧ c ∈ m.toList ∧ (∀ a b, m = .ambiguous a b → a ≠ b) :=
+  step_candidate_mem zn h1 h2 l hl c hc hrep
+
+/-- non-vacuity of `step_zone_complete` in the fold of `foldZone` (02:30 local occurs twice): the
+second pass `z₂ = 01:30Z +01:00` is a `StepCandidate`, the record `inFold` + offset 3600 is consistent
+with it and not with the first pass `z₁ = 00:30Z +02:00` (also a `StepCandidate`); the listed readings
+are representable -/
+example :
+    let l : NaiveDT := ⟨dateOfYo 2021 304, ⟨9000, 0⟩⟩
+    let z1 : Zoned := ⟨⟨dateOfYo 2021 304, ⟨1800, 0⟩⟩, 7200⟩
+    let z2 : Zoned := ⟨⟨dateOfYo 2021 304, ⟨5400, 0⟩⟩, 3600⟩
+    foldZone.local_offsets (instSecs l) = .ambiguous 7200 3600 ∧
+    InRangeSecs (instSecs l - 7200) ∧ InRangeSecs (instSecs l - 3600) ∧
+    consistentB { inFold with offset := some 3600 } z2 = true ∧
+    consistentB { inFold with offset := some 3600 } z1 = false ∧
+    Zoned.naive_local z1 = .ok l ∧ Zoned.naive_local z2 = .ok l ∧
+    foldZone.offset_at (instSecs z1.utc) = z1.off ∧ foldZone.offset_at (instSecs z2.utc) = z2.off ∧
+    Parsed.to_datetime_with_step_zone { inFold with offset := some 3600 } foldZone = .ok (.ok z2) := by
+  decide +kernel
+
+/-! ### which error the combined resolvers report (audit gap MEDIUM-2) -/
+
+/-- the decision table of `to_naive_datetime_with_offset`, EVERY record and `i32` offset, in terms of
+the two component resolvers (whose own kinds are `date_error_kinds` / `time_error_kinds`):
+* both resolve: the pair, or IMPOSSIBLE iff the timestamp field contradicts it (`datetime_sound_fields`);
+* otherwise, WITHOUT a timestamp field: the date resolver's error, else the time resolver's error;
+* otherwise, WITH a timestamp field: OUT_OF_RANGE if either resolver reports OUT_OF_RANGE, else
+  IMPOSSIBLE if either reports IMPOSSIBLE, else whatever the fall-back path yields — and that is
+  NOT_ENOUGH only for a century-only ISO year group.
+In every case NOT_ENOUGH implies that the record does not hold a sufficient date and a sufficient
+time combination. -/
+theorem datetime_error_kinds (p : Parsed) (hp : InType p) (off : Int)
+    (hoff : -2147483648 ≤ off ∧ off ≤ 2147483647) :
+    ∃ rd, Parsed.to_naive_date p = .ok rd ∧
+      (p.timestamp = none →
+        Parsed.to_naive_datetime_with_offset p off = .ok (match rd, Parsed.to_naive_time p with
+          | .error e, _ => .error e
+          | .ok _, .error e => .error e
+          | .ok d, .ok t => .ok ⟨d, t⟩)) ∧
+      (∀ ts, p.timestamp = some ts →
+        (¬ ∃ d t, rd = .ok d ∧ Parsed.to_naive_time p = .ok t) →
+        ((rd = .error .outOfRange ∨ Parsed.to_naive_time p = .error .outOfRange) →
+          Parsed.to_naive_datetime_with_offset p off = .ok (.error .outOfRange)) ∧
+        (¬ (rd = .error .outOfRange ∨ Parsed.to_naive_time p = .error .outOfRange) →
+          (rd = .error .impossible ∨ Parsed.to_naive_time p = .error .impossible) →
+          Parsed.to_naive_datetime_with_offset p off = .ok (.error .impossible)) ∧
+        (¬ (rd = .error .outOfRange ∨ Parsed.to_naive_time p = .error .outOfRange) →
+          ¬ (rd = .error .impossible ∨ Parsed.to_naive_time p = .error .impossible) →
+          Parsed.to_naive_datetime_with_offset p off = Parsed.from_timestamp_path p off ts)) ∧
+      (Parsed.to_naive_datetime_with_offset p off = .ok (.error .notEnough) →
+        ¬ (DateSufficient p ∧ TimeSufficient p) ∧
+        (p.timestamp ≠ none → ¬ GroupUsable p.isoyear p.isoyear_div_100 p.isoyear_mod_100)) := by
+  obtain ⟨rd, hrd, _⟩ := date_main p hp
+  refine ⟨rd, hrd, fun hts => ?_, fun ts hts hnb => ?_, dt_not_enough_only p hp off hoff⟩
+  · obtain ⟨rd', hrd', h⟩ := dt_no_timestamp p hp off hoff hts
+    rw [hrd] at hrd'; cases hrd'; exact h
+  · obtain ⟨rd', hrd', h⟩ := dt_with_timestamp' p hp off ts hts (by
+      rintro ⟨d, t, hd, ht⟩
+      rw [hrd] at hd; cases hd
+      exact hnb ⟨d, t, rfl, ht⟩)
+    rw [hrd] at hrd'; cases hrd'; exact h
+
+/-- NOT_ENOUGH of `to_naive_datetime_with_offset`, exactly, for a record WITHOUT a timestamp field
+whose year groups are coherent and whose time fields are in range: reported iff the record does not
+hold a sufficient date AND a sufficient time combination — unless the date resolver itself reports
+IMPOSSIBLE / OUT_OF_RANGE (a contradicting or non-existent date is reported first).
+(The audit's proposed form `… ↔ ¬(DateSufficient ∧ TimeSufficient) ∧ timestamp = none` is false as
+it stands: `{year 2023, month 2, day 30}` is OUT_OF_RANGE (the date resolver's error comes first)
+although the time is missing, and `{timestamp, isoyear_div_100}` is NOT_ENOUGH although a timestamp is present — see the
+example below; for records DERIVED from a value it is true: `datetime_not_enough_iff_derived`.) -/
+theorem datetime_not_enough_iff (p : Parsed) (hp : InType p) (off : Int)
+    (hoff : -2147483648 ≤ off ∧ off ≤ 2147483647)
+    (hcY : GroupCoherent p.year p.year_div_100 p.year_mod_100)
+    (hcI : GroupCoherent p.isoyear p.isoyear_div_100 p.isoyear_mod_100) (hr : TimeInRange p)
+    (hts : p.timestamp = none) :
+    Parsed.to_naive_datetime_with_offset p off = .ok (.error .notEnough) ↔
+      (¬ (DateSufficient p ∧ TimeSufficient p) ∧
+        ¬ ∃ e, e ≠ .notEnough ∧ Parsed.to_naive_date p = .ok (.error e)) :=
+  dt_not_enough_iff p hp off hoff hcY hcI hr hts
+
+/-- NOT_ENOUGH on fields DERIVED from one local reading — any subset of the 20 date/time/timestamp
+fields agreeing with the existing day `(Y, o)` and the time of day `t` (leap second or not), year
+groups determinate: reported exactly when there is no timestamp field and the record does not hold
+a sufficient date and a sufficient time combination.  (So a derived record never yields IMPOSSIBLE
+or OUT_OF_RANGE instead of NOT_ENOUGH, and a timestamp field always suffices.) -/
+theorem datetime_not_enough_iff_derived (p : Parsed) (hp : InType p) (off : Int)
+    (hoff : -2147483648 ≤ off ∧ off ≤ 2147483647) (Y : Int) (o : Nat) (t : Time) (hvd : VD Y o)
+    (ht : TValid t) (hag : DateAgrees p Y o)
+    (hdY : GroupDeterminate p.year p.year_div_100 p.year_mod_100 Y)
+    (hdI : ∀ w, (dateOfYo Y o).iso_week = .ok w →
+      GroupDeterminate p.isoyear p.isoyear_div_100 p.isoyear_mod_100 (IsoWeek.year w))
+    (hta : TimeAgreesSupplied p t) :
+    Parsed.to_naive_datetime_with_offset p off = .ok (.error .notEnough) ↔
+      (p.timestamp = none ∧ ¬ (DateSufficient p ∧ TimeSufficient p)) :=
+  dt_not_enough_iff_derived p hp off hoff Y o t hvd ht hag hdY hdI hta
+
+/-- non-vacuity / the corner cases: no timestamp and no time → NOT_ENOUGH; a non-existent date
+without time → the date's OUT_OF_RANGE comes first; a timestamp with a century-only ISO year group →
+NOT_ENOUGH; a timestamp with a century-only calendar year group resolves (the century is checked
+against the reconstructed year); an out-of-range minute beside a timestamp → OUT_OF_RANGE; a
+contradicting date beside a timestamp → IMPOSSIBLE -/
+example :
+    Parsed.to_naive_datetime_with_offset { year := some 2023, month := some 2, day := some 28 } 0
+      = .ok (.error .notEnough) ∧
+    Parsed.to_naive_datetime_with_offset { year := some 2023, month := some 2, day := some 30 } 0
+      = .ok (.error .outOfRange) ∧
+    Parsed.to_naive_datetime_with_offset { timestamp := some 0, isoyear_div_100 := some 19 } 0
+      = .ok (.error .notEnough) ∧
+    Parsed.to_naive_datetime_with_offset { timestamp := some 0, year_div_100 := some 19 } 0
+      = .ok (.ok ⟨dateOfYo 1970 1, ⟨0, 0⟩⟩) ∧
+    Parsed.to_naive_datetime_with_offset
+      { timestamp := some 0, hour_div_12 := some 0, hour_mod_12 := some 0, minute := some 60 } 0
+      = .ok (.error .outOfRange) ∧
+    Parsed.to_naive_datetime_with_offset
+      { timestamp := some 0, year := some 1970, month := some 1, day := some 1, ordinal := some 2 } 0
+      = .ok (.error .impossible) := by
+  decide +kernel
+
+/-- `to_datetime`, EVERY record, stage by stage — which error kind and when:
+* neither offset nor timestamp field: NOT_ENOUGH;
+* otherwise the naive stage runs at the supplied offset (0 without one) and its error is passed on
+  (`datetime_error_kinds`);
+* the naive stage succeeded with `dt`: OUT_OF_RANGE iff the offset is not strictly within ±24 h;
+  else IMPOSSIBLE iff the UTC reading `dt − offset` is not representable; else the value with that
+  offset and wall clock `dt`. -/
+theorem to_datetime_error_kinds (p : Parsed) (hp : InType p) :
+    (p.offset = none → p.timestamp = none → Parsed.to_datetime p = .ok (.error .notEnough)) ∧
+    ((p.offset ≠ none ∨ p.timestamp ≠ none) →
+      ∃ r, Parsed.to_naive_datetime_with_offset p (p.offset.getD 0) = .ok r ∧
+        (∀ e, r = .error e → Parsed.to_datetime p = .ok (.error e)) ∧
+        (∀ dt, r = .ok dt →
+          (¬ OffValid (p.offset.getD 0) → Parsed.to_datetime p = .ok (.error .outOfRange)) ∧
+          (OffValid (p.offset.getD 0) → ¬ InRangeSecs (instSecs dt - p.offset.getD 0) →
+            Parsed.to_datetime p = .ok (.error .impossible)) ∧
+          (OffValid (p.offset.getD 0) → InRangeSecs (instSecs dt - p.offset.getD 0) →
+            ∃ z, Parsed.to_datetime p = .ok (.ok z) ∧ z.off = p.offset.getD 0 ∧
+              Zoned.naive_local z = .ok dt))) :=
+  to_datetime_stages p hp
+
+/-- NOT_ENOUGH of `to_datetime`, exactly, EVERY record: neither offset nor timestamp is supplied, or
+the naive stage reports NOT_ENOUGH (`datetime_not_enough_iff…`) -/
+theorem to_datetime_not_enough_iff (p : Parsed) (hp : InType p) :
+    Parsed.to_datetime p = .ok (.error .notEnough) ↔
+      ((p.offset = none ∧ p.timestamp = none) ∨
+       Parsed.to_naive_datetime_with_offset p (p.offset.getD 0) = .ok (.error .notEnough)) :=
+  to_datetime_not_enough_iff' p hp
+
+/-- `to_datetime_with_timezone` for a fixed zone, EVERY record, stage by stage: a timestamp field
+that is no representable instant (with the nanosecond field) is OUT_OF_RANGE; otherwise the naive
+stage runs at the guessed offset `g` (0 without timestamp, else the zone's offset) and its error is
+passed on; on success with `dt`: IMPOSSIBLE iff the UTC reading `dt − zone` is not representable or
+the offset field differs from the zone's offset; else the value at the zone's offset with wall
+clock `dt`.  (Zone-generic analogue: `tz_gen_error_kinds` / `tz_gen_resolution`.) -/
+theorem to_datetime_with_timezone_error_kinds (p : Parsed) (hp : InType p) (zone : Int)
+    (hz : OffValid zone) :
+    (∀ ts, p.timestamp = some ts → ¬ tsOk ts (p.nanosecond.getD 0) →
+      Parsed.to_datetime_with_timezone p zone = .ok (.error .outOfRange)) ∧
+    (∀ g, (p.timestamp = none ∧ g = 0) ∨
+        (∃ ts, p.timestamp = some ts ∧ tsOk ts (p.nanosecond.getD 0) ∧ g = zone) →
+      ∃ r, Parsed.to_naive_datetime_with_offset p g = .ok r ∧
+        (∀ e, r = .error e → Parsed.to_datetime_with_timezone p zone = .ok (.error e)) ∧
+        (∀ dt, r = .ok dt →
+          ((¬ InRangeSecs (instSecs dt - zone) ∨ ∃ x, p.offset = some x ∧ x ≠ zone) →
+            Parsed.to_datetime_with_timezone p zone = .ok (.error .impossible)) ∧
+          (InRangeSecs (instSecs dt - zone) → (∀ x, p.offset = some x → x = zone) →
+            ∃ z, Parsed.to_datetime_with_timezone p zone = .ok (.ok z) ∧ z.off = zone ∧
+              Zoned.naive_local z = .ok dt))) :=
+  to_datetime_tz_stages p hp zone hz
+
+/-- NOT_ENOUGH of `to_datetime_with_timezone` (fixed zone), exactly: the naive stage at the guessed
+offset reports it — a missing offset FIELD is never a reason here (the zone supplies the offset) -/
+theorem to_datetime_with_timezone_not_enough_iff (p : Parsed) (hp : InType p) (zone : Int)
+    (hz : OffValid zone) :
+    Parsed.to_datetime_with_timezone p zone = .ok (.error .notEnough) ↔
+      ((p.timestamp = none ∧ Parsed.to_naive_datetime_with_offset p 0 = .ok (.error .notEnough)) ∨
+       (∃ ts, p.timestamp = some ts ∧ tsOk ts (p.nanosecond.getD 0) ∧
+         Parsed.to_naive_datetime_with_offset p zone = .ok (.error .notEnough))) :=
+  to_datetime_tz_not_enough_iff p hp zone hz
+
+/-- non-vacuity of the zone-aware tables: no offset and no timestamp; date and offset but no time
+(naive NOT_ENOUGH passed on); an offset of a whole day (OUT_OF_RANGE after a successful naive stage);
+the first representable second at +01:00 (UTC reading not representable: IMPOSSIBLE); a timestamp
+beyond the range in a fixed zone (OUT_OF_RANGE before anything else); an offset field contradicting
+the zone (IMPOSSIBLE); a fixed zone needs no offset field -/
+example :
+    Parsed.to_datetime { year := some 2024, ordinal := some 60 } = .ok (.error .notEnough) ∧
+    Parsed.to_datetime { year := some 2024, ordinal := some 60, offset := some 0 } = .ok (.error .notEnough) ∧
+    Parsed.to_datetime { timestamp := some 0, offset := some 86400 } = .ok (.error .outOfRange) ∧
+    Parsed.to_datetime {
+      year := some (-262143), ordinal := some 1, hour_div_12 := some 0, hour_mod_12 := some 0,
+      minute := some 0, offset := some 3600 } = .ok (.error .impossible) ∧
+    Parsed.to_datetime_with_timezone { timestamp := some 8210266876800 } 0 = .ok (.error .outOfRange) ∧
+    Parsed.to_datetime_with_timezone { timestamp := some 0, offset := some 3600 } 0
+      = .ok (.error .impossible) ∧
+    Parsed.to_datetime_with_timezone { timestamp := some 0 } 3600
+      = .ok (.ok ⟨⟨dateOfYo 1970 1, ⟨0, 0⟩⟩, 3600⟩) := by
+  decide +kernel
+
+/-! ### leap-second readings through the timestamp fall-back (audit gap LOW-MEDIUM-3) -/
+
+/-- completeness of `to_naive_datetime_with_offset` THROUGH THE TIMESTAMP for a LEAP-SECOND reading
+(the case `datetime_complete_timestamp` excludes by `hnl`): for every existing day `(Y, o)`, every
+leap reading `t` (`t.frac ≥ 10⁹` on a second :59 — any minute, as `NaiveTime` allows) and every offset,
+a record
+  * whose second field is 60,
+  * whose timestamp field `g` is the timestamp of the reading at `off` (that of its second :59), or
+    one more (that of the following second, the documented allowance) — in which case the following
+    second must itself be a representable local date-time (`g + off ≤ TS_MAX`; see the example below),
+  * whose other supplied fields — any subset — agree with the reading, year groups determinate, the
+    nanosecond field (if any) being the sub-second part and the sub-second part being zero without it,
+  * and that does not hold a sufficient date together with a sufficient time combination
+resolves to exactly `⟨(Y, o), t⟩`. -/
+theorem datetime_complete_timestamp_leap (p : Parsed) (hp : InType p) (off : Int) (Y : Int) (o : Nat)
+    (t : Time) (hvd : VD Y o) (ht : TValid t) (hleap : 1000000000 ≤ t.frac) (h59 : t.secs % 60 = 59)
+    (hag : DateAgrees p Y o)
+    (hdY : GroupDeterminate p.year p.year_div_100 p.year_mod_100 Y)
+    (hdI : ∀ w, (dateOfYo Y o).iso_week = .ok w →
+      GroupDeterminate p.isoyear p.isoyear_div_100 p.isoyear_mod_100 (IsoWeek.year w))
+    (hta : TimeAgreesSupplied p t) (hnano : p.nanosecond = none → t.frac = 1000000000)
+    (h60 : p.second = some 60) (g : Int) (hts : p.timestamp = some g)
+    (hg : g = timestampIs.instSecsLocal ⟨dateOfYo Y o, t⟩ - off ∨
+      (g = timestampIs.instSecsLocal ⟨dateOfYo Y o, t⟩ - off + 1 ∧ g + off ≤ TS_MAX))
+    (hfb : ¬ (DateSufficient p ∧ TimeSufficient p)) :
+    Parsed.to_naive_datetime_with_offset p off = .ok (.ok ⟨dateOfYo Y o, t⟩) :=
+  dt_complete_ts_leap p hp off Y o t hvd ht hleap h59 hag hdY hdI hta hnano h60 g hts hg hfb
+
+/-- the same for `to_datetime`: the timestamp of a leap-second value `z` (or one more), second 60,
+`z`'s offset as offset field (or none, `z` at UTC), agreeing insufficient other fields ⇒ exactly `z` -/
+theorem to_datetime_complete_timestamp_leap (p : Parsed) (hp : InType p) (z : Zoned) (hz : ZInv z)
+    (Y : Int) (o : Nat) (t : Time) (hvd : VD Y o) (ht : TValid t) (hleap : 1000000000 ≤ t.frac)
+    (h59 : t.secs % 60 = 59)
+    (hl : Zoned.naive_local z = .ok ⟨dateOfYo Y o, t⟩)
+    (hag : DateAgrees p Y o)
+    (hdY : GroupDeterminate p.year p.year_div_100 p.year_mod_100 Y)
+    (hdI : ∀ w, (dateOfYo Y o).iso_week = .ok w →
+      GroupDeterminate p.isoyear p.isoyear_div_100 p.isoyear_mod_100 (IsoWeek.year w))
+    (hta : TimeAgreesSupplied p t) (hnano : p.nanosecond = none → t.frac = 1000000000)
+    (h60 : p.second = some 60) (g : Int) (hts : p.timestamp = some g)
+    (hg : g = instSecs z.utc ∨ (g = instSecs z.utc + 1 ∧ g + z.off ≤ TS_MAX))
+    (hoff : p.offset = some z.off ∨ (p.offset = none ∧ z.off = 0))
+    (hfb : ¬ (DateSufficient p ∧ TimeSufficient p)) :
+    Parsed.to_datetime p = .ok (.ok z) :=
+  to_datetime_complete_ts_leap p hp z hz Y o t hvd ht hleap h59 hl hag hdY hdI hta hnano h60 g hts hg
+    hoff hfb
+
+/-- the same for `to_datetime_with_timezone` in the fixed zone `z.off`; for the `+1` timestamp the
+following second must be representable both as a local date-time and as an instant -/
+theorem to_datetime_with_timezone_complete_timestamp_leap (p : Parsed) (hp : InType p) (z : Zoned)
+    (hz : ZInv z) (Y : Int) (o : Nat) (t : Time) (hvd : VD Y o) (ht : TValid t)
+    (hleap : 1000000000 ≤ t.frac) (h59 : t.secs % 60 = 59)
+    (hl : Zoned.naive_local z = .ok ⟨dateOfYo Y o, t⟩)
+    (hag : DateAgrees p Y o)
+    (hdY : GroupDeterminate p.year p.year_div_100 p.year_mod_100 Y)
+    (hdI : ∀ w, (dateOfYo Y o).iso_week = .ok w →
+      GroupDeterminate p.isoyear p.isoyear_div_100 p.isoyear_mod_100 (IsoWeek.year w))
+    (hta : TimeAgreesSupplied p t) (hnano : p.nanosecond = none → t.frac = 1000000000)
+    (h60 : p.second = some 60) (g : Int) (hts : p.timestamp = some g)
+    (hg : g = instSecs z.utc ∨ (g = instSecs z.utc + 1 ∧ g + z.off ≤ TS_MAX ∧ g ≤ TS_MAX))
+    (hoff : ∀ x, p.offset = some x → x = z.off)
+    (hfb : ¬ (DateSufficient p ∧ TimeSufficient p)) :
+    Parsed.to_datetime_with_timezone p z.off = .ok (.ok z) :=
+  to_datetime_tz_complete_ts_leap p hp z hz Y o t hvd ht hleap h59 hl hag hdY hdI hta hnano h60 g hts
+    hg hoff hfb
+
+/-- non-vacuity, for EVERY leap reading: the record holding the timestamp (either of the two), second
+60 and the sub-second part as nanosecond field meets all hypotheses of
+`datetime_complete_timestamp_leap` -/
+theorem datetime_complete_timestamp_leap_only (off : Int) (hoff : -2147483648 ≤ off ∧ off ≤ 2147483647)
+    (Y : Int) (o : Nat) (t : Time) (hvd : VD Y o) (ht : TValid t) (hleap : 1000000000 ≤ t.frac)
+    (h59 : t.secs % 60 = 59) (g : Int)
+    (hg : g = timestampIs.instSecsLocal ⟨dateOfYo Y o, t⟩ - off ∨
+      (g = timestampIs.instSecsLocal ⟨dateOfYo Y o, t⟩ - off + 1 ∧ g + off ≤ TS_MAX)) :
+    Parsed.to_naive_datetime_with_offset
+      { timestamp := some g, second := some 60, nanosecond := some (t.frac - 1000000000) } off
+      = .ok (.ok ⟨dateOfYo Y o, t⟩) := by
+  obtain ⟨_, hb1, hb2⟩ := timestamp_spec Y o t hvd ht
+  obtain ⟨w, hw⟩ := iso_week_ok Y o hvd
+  obtain ⟨t0, t1, f0, f1⟩ := id ht
+  have hno : ∀ x, (none : Option Int) = some x → False := fun x h => by cases h
+  have n : ∀ lo hi, optIn (none : Option Int) lo hi := fun _ _ x h => (hno x h).elim
+  refine datetime_complete_timestamp_leap _ ?_ off Y o t hvd ht hleap h59 ?_ ?_ ?_ ?_ ?_ rfl g rfl hg ?_
+  · refine ⟨n _ _, n _ _, n _ _, n _ _, n _ _, n _ _, n _ _, n _ _, n _ _, n _ _, n _ _, n _ _, n _ _,
+      n _ _, n _ _, n _ _, fun x h => ?_, fun x h => ?_, fun x h => ?_, n _ _⟩
+    · cases h; omega
+    · cases h; omega
+    · cases h
+      rcases hg with rfl | ⟨rfl, _⟩ <;> omega
+  · exact ⟨fun x h => (hno x h).elim, ⟨fun x h => (hno x h).elim, fun x h => (hno x h).elim⟩,
+      fun x h => (hno x h).elim, fun x h => (hno x h).elim, fun x h => (hno x h).elim,
+      fun x h => (hno x h).elim, fun x h => (by cases h), fun x h => (hno x h).elim,
+      fun x h => (hno x h).elim, ⟨w, hw, fun x h => (hno x h).elim,
+        ⟨fun x h => (hno x h).elim, fun x h => (hno x h).elim⟩, fun x h => (hno x h).elim⟩⟩
+  · exact ⟨fun h => h.2.1 rfl, fun _ _ h => (h rfl).elim⟩
+  · intro w' _; exact ⟨fun h => h.2.1 rfl, fun _ _ h => (h rfl).elim⟩
+  · refine ⟨fun x h => (hno x h).elim, fun x h => (hno x h).elim, fun x h => (hno x h).elim,
+      fun x h => ?_, fun x h => ?_⟩
+    · cases h
+      rw [if_pos rfl]
+      exact ⟨h59, hleap⟩
+    · cases h; omega
+  · intro h; cases h
+  · intro h; exact h.2.1 rfl
+
+/-- kernel-checked instances: 2016-12-31T23:59:60.25 from either timestamp with second 60; at the
+last representable second the `+1` timestamp is beyond the range on this path: OUT_OF_RANGE (the
+FIELD path accepts it, `tz_leap_at_max`) — the hypothesis `g + off ≤ TS_MAX` cannot be dropped -/
+example :
+    Parsed.to_naive_datetime_with_offset
+      { timestamp := some 1483228799, second := some 60, nanosecond := some 250000000 } 0
+      = .ok (.ok ⟨dateOfYo 2016 366, ⟨86399, 1250000000⟩⟩) ∧
+    Parsed.to_naive_datetime_with_offset
+      { timestamp := some 1483228800, second := some 60, nanosecond := some 250000000 } 0
+      = .ok (.ok ⟨dateOfYo 2016 366, ⟨86399, 1250000000⟩⟩) ∧
+    Parsed.to_datetime { timestamp := some 1483225200, second := some 60, offset := some 3600 }
+      = .ok (.ok ⟨⟨dateOfYo 2016 366, ⟨82799, 1000000000⟩⟩, 3600⟩) ∧
+    Parsed.to_naive_datetime_with_offset { timestamp := some 8210266876799, second := some 60 } 0
+      = .ok (.ok ⟨dateOfYo 262142 365, ⟨86399, 1000000000⟩⟩) ∧
+    Parsed.to_naive_datetime_with_offset { timestamp := some 8210266876800, second := some 60 } 0
+      = .ok (.error .outOfRange) := by
+  decide +kernel
+
+/-! ### LOW gaps of the audit: ISO fields through the calendar specification, setters, empty record -/
+
+/-- `date_sound` with the ISO-week fields read off the CALENDAR specification (`isoYear` / `isoWeek`
+of Spec/StrftimeSpec.lean: year and week number of the Thursday of the day's Monday-based week)
+instead of the model's `iso_week` accessor: a successful result agrees with every supplied date field
+in the sense of `DateAgreesSpec`.  (The two readings coincide by C12's `iso_week_spec`.) -/
+theorem date_sound_spec (p : Parsed) (hp : InType p) (d : Date)
+    (h : Parsed.to_naive_date p = .ok (.ok d)) :
+    ∃ Y o, VD Y o ∧ d = dateOfYo Y o ∧ DateAgreesSpec p Y o := by
+  obtain ⟨Y, o, hvd, hd, hag⟩ := date_sound p hp d h
+  exact ⟨Y, o, hvd, hd, (dateAgrees_iff_spec p Y o hvd).mp hag⟩
+
+/-- `date_complete` likewise: agreement and determinacy of the ISO year group stated against the
+calendar specification's ISO year -/
+theorem date_complete_spec (p : Parsed) (hp : InType p) (Y : Int) (o : Nat) (hvd : VD Y o)
+    (hag : DateAgreesSpec p Y o)
+    (hdY : GroupDeterminate p.year p.year_div_100 p.year_mod_100 Y)
+    (hdI : GroupDeterminate p.isoyear p.isoyear_div_100 p.isoyear_mod_100 (isoYear Y o))
+    (hc : UsesCalendar p ∨ UsesIso p) :
+    Parsed.to_naive_date p = .ok (.ok (dateOfYo Y o)) :=
+  date_complete p hp Y o hvd ((dateAgrees_iff_spec p Y o hvd).mpr hag) hdY
+    (fun w hw => by rw [iso_year_of Y o hvd w hw]; exact hdI) hc
+
+/-- non-vacuity: 2021-01-01 lies in ISO week 53 of ISO year 2020 by the calendar specification, and
+the ISO combination resolves to it -/
+example : isoYear 2021 1 = 2020 ∧ isoWeek 2021 1 = 53 ∧
+    IsoIsSpec { isoyear := some 2020, isoweek := some 53, weekday := some .fri } 2021 1 ∧
+    Parsed.to_naive_date { isoyear := some 2020, isoweek := some 53, weekday := some .fri }
+      = .ok (.ok (dateOfYo 2021 1)) := by
+  refine ⟨by decide, by decide, ⟨?_, ⟨?_, ?_⟩, ?_⟩, by decide +kernel⟩
+  · intro x h; cases h; decide
+  · intro x h; cases h
+  · intro x h; cases h
+  · intro x h; cases h; decide
+
+/-- ALL 20 integer-valued setters against the ranges re-extracted from src/format/parsed.rs on every
+run (Extracted/Setters.lean), for EVERY prior record and EVERY integer argument (negative values and
+the `i64` extremes included): outside the range OUT_OF_RANGE; inside, accepted iff the field is unset
+or already holds that value, storing it (for `set_hour12`: `v % 12`, i.e. 12 ↦ 0) and changing nothing
+else; otherwise IMPOSSIBLE (`SetterSpec`).  `set_timestamp` has no range; `set_hour` stores `v / 12`
+and `v % 12`. -/
+theorem setter_ranges :
+    SetterSpec SET_RANGE_year.1 SET_RANGE_year.2 (·.year) id Parsed.set_year (fun p f => { p with year := f }) ∧
+    SetterSpec SET_RANGE_year_div_100.1 SET_RANGE_year_div_100.2 (·.year_div_100) id Parsed.set_year_div_100
+      (fun p f => { p with year_div_100 := f }) ∧
+    SetterSpec SET_RANGE_year_mod_100.1 SET_RANGE_year_mod_100.2 (·.year_mod_100) id Parsed.set_year_mod_100
+      (fun p f => { p with year_mod_100 := f }) ∧
+    SetterSpec SET_RANGE_isoyear.1 SET_RANGE_isoyear.2 (·.isoyear) id Parsed.set_isoyear
+      (fun p f => { p with isoyear := f }) ∧
+    SetterSpec SET_RANGE_isoyear_div_100.1 SET_RANGE_isoyear_div_100.2 (·.isoyear_div_100) id
+      Parsed.set_isoyear_div_100 (fun p f => { p with isoyear_div_100 := f }) ∧
+    SetterSpec SET_RANGE_isoyear_mod_100.1 SET_RANGE_isoyear_mod_100.2 (·.isoyear_mod_100) id
+      Parsed.set_isoyear_mod_100 (fun p f => { p with isoyear_mod_100 := f }) ∧
+    SetterSpec SET_RANGE_quarter.1 SET_RANGE_quarter.2 (·.quarter) id Parsed.set_quarter
+      (fun p f => { p with quarter := f }) ∧
+    SetterSpec SET_RANGE_month.1 SET_RANGE_month.2 (·.month) id Parsed.set_month
+      (fun p f => { p with month := f }) ∧
+    SetterSpec SET_RANGE_week_from_sun.1 SET_RANGE_week_from_sun.2 (·.week_from_sun) id Parsed.set_week_from_sun
+      (fun p f => { p with week_from_sun := f }) ∧
+    SetterSpec SET_RANGE_week_from_mon.1 SET_RANGE_week_from_mon.2 (·.week_from_mon) id Parsed.set_week_from_mon
+      (fun p f => { p with week_from_mon := f }) ∧
+    SetterSpec SET_RANGE_isoweek.1 SET_RANGE_isoweek.2 (·.isoweek) id Parsed.set_isoweek
+      (fun p f => { p with isoweek := f }) ∧
+    SetterSpec SET_RANGE_ordinal.1 SET_RANGE_ordinal.2 (·.ordinal) id Parsed.set_ordinal
+      (fun p f => { p with ordinal := f }) ∧
+    SetterSpec SET_RANGE_day.1 SET_RANGE_day.2 (·.day) id Parsed.set_day (fun p f => { p with day := f }) ∧
+    SetterSpec SET_RANGE_hour12.1 SET_RANGE_hour12.2 (·.hour_mod_12) (fun v => v % 12) Parsed.set_hour12
+      (fun p f => { p with hour_mod_12 := f }) ∧
+    SetterSpec SET_RANGE_minute.1 SET_RANGE_minute.2 (·.minute) id Parsed.set_minute
+      (fun p f => { p with minute := f }) ∧
+    SetterSpec SET_RANGE_second.1 SET_RANGE_second.2 (·.second) id Parsed.set_second
+      (fun p f => { p with second := f }) ∧
+    SetterSpec SET_RANGE_nanosecond.1 SET_RANGE_nanosecond.2 (·.nanosecond) id Parsed.set_nanosecond
+      (fun p f => { p with nanosecond := f }) ∧
+    SetterSpec SET_RANGE_offset.1 SET_RANGE_offset.2 (·.offset) id Parsed.set_offset
+      (fun p f => { p with offset := f }) := setters_spec
+
+/-- the two remaining integer setters: `set_timestamp` accepts every `i64` (its extracted range is all
+of `i64`); `set_hour` accepts exactly its extracted range and stores `v / 12`, `v % 12` — accepted
+iff both halves are unset or already hold those values -/
+theorem setter_ranges_timestamp_hour (p p1 : Parsed) (v : Int) :
+    (SET_RANGE_timestamp = (-9223372036854775808, 9223372036854775807) ∧
+     ((p.timestamp = none ∨ p.timestamp = some v) → p.set_timestamp v = .ok { p with timestamp := some v }) ∧
+     (¬ (p.timestamp = none ∨ p.timestamp = some v) → p.set_timestamp v = .error .impossible)) ∧
+    (¬ (SET_RANGE_hour.1 ≤ v ∧ v ≤ SET_RANGE_hour.2) → p.set_hour v = .error .outOfRange) ∧
+    (p.set_hour v = .ok p1 ↔ (SET_RANGE_hour.1 ≤ v ∧ v ≤ SET_RANGE_hour.2) ∧
+      (p.hour_div_12 = none ∨ p.hour_div_12 = some (v / 12)) ∧
+      (p.hour_mod_12 = none ∨ p.hour_mod_12 = some (v % 12)) ∧
+      p1 = { p with hour_div_12 := some (v / 12), hour_mod_12 := some (v % 12) }) :=
+  ⟨set_timestamp_spec p v, (set_hour_spec p p1 v).1, (set_hour_spec p p1 v).2⟩
+
+/-- non-vacuity and the extremes: the extracted ranges are the documented ones; `i64::MIN`, `i64::MAX`
+and `u32::MAX + 1` are OUT_OF_RANGE for a `u32` field, `i32::MAX + 1` for an `i32` field; a negative
+year is accepted, a negative century is not -/
+example :
+    SET_RANGE_month = (1, 12) ∧ SET_RANGE_second = (0, 60) ∧ SET_RANGE_year_div_100 = (0, 2147483647) ∧
+    Parsed.new.set_month (-9223372036854775808) = .error .outOfRange ∧
+    Parsed.new.set_month 9223372036854775807 = .error .outOfRange ∧
+    Parsed.new.set_month 4294967297 = .error .outOfRange ∧
+    Parsed.new.set_year 2147483648 = .error .outOfRange ∧
+    Parsed.new.set_year (-2147483648) = .ok { year := some (-2147483648) } ∧
+    Parsed.new.set_year_div_100 (-1) = .error .outOfRange ∧
+    Parsed.new.set_hour12 12 = .ok { hour_mod_12 := some 0 } ∧
+    Parsed.new.set_timestamp (-9223372036854775808) = .ok { timestamp := some (-9223372036854775808) } := by
+  decide
+
+/-- cross-setter consistency of the hour fields: after `set_hour h` succeeded, `set_ampm pm` is
+accepted iff `pm ↔ 12 ≤ h` and `set_hour12 v` iff `v ∈ 1..=12` is the 12-hour-clock reading of `h`
+(`v % 12 = h % 12`) — and an accepted call leaves the record unchanged; the two stored halves are
+`h / 12` and `h % 12`, which denote `h` -/
+theorem hour_setters_consistent (p p1 : Parsed) (h : Int) (hs : p.set_hour h = .ok p1) :
+    (∀ pm : Bool, (∃ p2, p1.set_ampm pm = .ok p2) ↔ (pm = true ↔ 12 ≤ h)) ∧
+    (∀ pm p2, p1.set_ampm pm = .ok p2 → p2 = p1) ∧
+    (∀ v : Int, (∃ p2, p1.set_hour12 v = .ok p2) ↔ (1 ≤ v ∧ v ≤ 12 ∧ v % 12 = h % 12)) ∧
+    (∀ v p2, p1.set_hour12 v = .ok p2 → p2 = p1) ∧
+    p1.hour_div_12 = some (h / 12) ∧ p1.hour_mod_12 = some (h % 12) ∧
+    hourOfFields (h / 12) (h % 12) = h := hour_cross p p1 h hs
+
+/-- the converse order: after `set_ampm pm` and `set_hour12 v` succeeded, `set_hour h` is accepted iff
+`h = (if pm then 12 else 0) + v % 12`, and then leaves the record unchanged -/
+theorem hour_setters_consistent_conv (p p1 p2 : Parsed) (pm : Bool) (v : Int)
+    (h1 : p.set_ampm pm = .ok p1) (h2 : p1.set_hour12 v = .ok p2) (h : Int) :
+    ((∃ p3, p2.set_hour h = .ok p3) ↔ h = (if pm then 12 else 0) + v % 12) ∧
+    (∀ p3, p2.set_hour h = .ok p3 → p3 = p2) := hour_cross_conv p p1 p2 pm v h1 h2 h
+
+/-- non-vacuity: 23 = pm + 11 o'clock; 12 o'clock pm is hour 12; 12 o'clock am is hour 0 -/
+example :
+    (∃ p1, Parsed.new.set_hour 23 = .ok p1 ∧ p1.set_ampm true = .ok p1 ∧ p1.set_hour12 11 = .ok p1 ∧
+      p1.set_ampm false = .error .impossible ∧ p1.set_hour12 12 = .error .impossible) ∧
+    (∃ p1 p2, Parsed.new.set_ampm true = .ok p1 ∧ p1.set_hour12 12 = .ok p2 ∧ p2.set_hour 12 = .ok p2 ∧
+      p2.set_hour 0 = .error .impossible) :=
+  ⟨⟨{ hour_div_12 := some 1, hour_mod_12 := some 11 }, rfl, rfl, rfl, rfl, rfl⟩,
+   ⟨{ hour_div_12 := some 1 }, { hour_div_12 := some 1, hour_mod_12 := some 0 }, rfl, rfl, rfl, rfl⟩⟩
+
+/-- `Parsed::new()` / `Parsed::default()` (no field set) is NOT_ENOUGH for every resolver: every offset
+argument, every fixed zone, every step zone -/
+theorem new_resolves_not_enough (off zone : Int) (z : StepZone) :
+    Parsed.to_naive_date Parsed.new = .ok (.error .notEnough) ∧
+    Parsed.to_naive_time Parsed.new = .error .notEnough ∧
+    Parsed.to_naive_datetime_with_offset Parsed.new off = .ok (.error .notEnough) ∧
+    Parsed.to_fixed_offset Parsed.new = .error .notEnough ∧
+    Parsed.to_datetime Parsed.new = .ok (.error .notEnough) ∧
+    Parsed.to_datetime_with_timezone Parsed.new zone = .ok (.error .notEnough) ∧
+    Parsed.to_datetime_with_step_zone Parsed.new z = .ok (.error .notEnough) :=
+  new_not_enough off zone z
+
+/-- the quarter field is a pure cross-check, EVERY record: resolve the record without its quarter
+field; an error is passed on unchanged (a quarter never makes a set sufficient and never changes
+the kind); a resolved day `(Y, o)` is returned iff the quarter field — if supplied — is the quarter
+of its month, otherwise IMPOSSIBLE -/
+theorem date_quarter (p : Parsed) (hp : InType p) :
+    ∃ r0, Parsed.to_naive_date { p with quarter := none } = .ok r0 ∧
+      (∀ e, r0 = .error e → Parsed.to_naive_date p = .ok (.error e)) ∧
+      (∀ Y o, VD Y o → r0 = .ok (dateOfYo Y o) →
+        (optIs p.quarter (quarterOfMonth (monthOfYo Y o)) →
+          Parsed.to_naive_date p = .ok (.ok (dateOfYo Y o))) ∧
+        (¬ optIs p.quarter (quarterOfMonth (monthOfYo Y o)) →
+          Parsed.to_naive_date p = .ok (.error .impossible))) := by
+  have hp0 : InType { p with quarter := none } := by
+    obtain ⟨h1, h2, h3, h4, h5, h6, _, h8⟩ := hp
+    exact ⟨h1, h2, h3, h4, h5, h6, (fun x h => by cases h), h8⟩
+  obtain ⟨r0, hr0, _⟩ := date_main _ hp0
+  refine ⟨r0, hr0, fun e he => ?_, fun Y o hvd hd => ?_⟩
+  · rw [date_quarter_factor, hr0, he]; rfl
+  · obtain ⟨_, _, _, hm, _⟩ := vd_fields Y o hvd
+    obtain ⟨_, _, hval, _⟩ := month_day_spec Y o hvd.2.2.1 hvd.2.2.2
+    have hm1 : 1 ≤ monthOfYo Y o := by
+      unfold validYmd at hval; simp at hval; omega
+    rw [date_quarter_factor, hr0, hd]
+    simp only [Parsed.RP.bind]
+    cases hq : p.quarter with
+    | none => exact ⟨fun _ => rfl, fun h => absurd (fun x hx => by cases hx) h⟩
+    | some q =>
+      simp only [hm, quarter_eq _ hm1]
+      constructor
+      · intro h
+        rw [if_neg (by intro hne; exact hne (h q rfl))]
+      · intro h
+        rw [if_pos (by intro he; apply h; intro x hx; cases hx; exact he)]
+
+/-- non-vacuity: year + quarter alone is NOT_ENOUGH (the quarter is no date combination); a matching
+and a contradicting quarter beside a full date -/
+example :
+    Parsed.to_naive_date { year := some 2024, quarter := some 1 } = .ok (.error .notEnough) ∧
+    Parsed.to_naive_date { year := some 2024, ordinal := some 91, quarter := some 1 }
+      = .ok (.ok (dateOfYo 2024 91)) ∧
+    Parsed.to_naive_date { year := some 2024, ordinal := some 92, quarter := some 1 }
+      = .ok (.error .impossible) := by
+  decide +kernel
+
+/-- the year groups and NEGATIVE years: a negative year has neither century nor two-digit year, so a
+negative full year beside a century or two-digit-year field is refused, and so is a negative century
+(IMPOSSIBLE; OUT_OF_RANGE when the two-digit year is outside 0..=99 — that is checked first); a full
+year alone is taken as it is, negative or not.  (In `date_sound` the same rule is the clause `centIs`:
+a supplied century / two-digit year agrees only with a non-negative year.) -/
+theorem year_group_negative (y qv rv : Int) (q r : Option Int) :
+    (y < 0 → (q ≠ none ∨ r ≠ none) →
+      Parsed.resolve_year (some y) q r = .error (if Parsed.modOk r then .impossible else .outOfRange)) ∧
+    (qv < 0 →
+      Parsed.resolve_year none (some qv) (some rv) =
+        .error (if 0 ≤ rv ∧ rv ≤ 99 then .impossible else .outOfRange)) ∧
+    (0 ≤ y → Parsed.resolve_year (some y) none none = .ok (some y)) ∧
+    (y < 0 → Parsed.resolve_year (some y) none none = .ok (some y)) :=
+  resolve_year_negative y qv rv q r
+
+/-- non-vacuity at the resolver: year −1 with ordinal resolves; with a two-digit year 99 or century 0
+beside it IMPOSSIBLE (−1 is not 0·100 + 99) -/
+example :
+    Parsed.to_naive_date { year := some (-1), ordinal := some 1 } = .ok (.ok (dateOfYo (-1) 1)) ∧
+    Parsed.to_naive_date { year := some (-1), year_mod_100 := some 99, ordinal := some 1 }
+      = .ok (.error .impossible) ∧
+    Parsed.to_naive_date { year := some (-1), year_div_100 := some 0, ordinal := some 1 }
+      = .ok (.error .impossible) ∧
+    Parsed.to_naive_date { year_div_100 := some (-1), year_mod_100 := some 99, ordinal := some 1 }
+      = .ok (.error .impossible) := by
+  decide +kernel
+
+/-- reading back what was set (the accessor methods `Parsed::year()` … are plain reads of these
+fields): after a successful set the field holds the stored value — the argument itself, for
+`set_hour12` `v % 12`, for `set_hour` the two halves `v / 12`, `v % 12` — whatever the prior record -/
+theorem set_then_get (p p1 : Parsed) (v : Int) :
+    (p.set_year v = .ok p1 → p1.year = some v) ∧
+    (p.set_year_div_100 v = .ok p1 → p1.year_div_100 = some v) ∧
+    (p.set_year_mod_100 v = .ok p1 → p1.year_mod_100 = some v) ∧
+    (p.set_isoyear v = .ok p1 → p1.isoyear = some v) ∧
+    (p.set_isoyear_div_100 v = .ok p1 → p1.isoyear_div_100 = some v) ∧
+    (p.set_isoyear_mod_100 v = .ok p1 → p1.isoyear_mod_100 = some v) ∧
+    (p.set_quarter v = .ok p1 → p1.quarter = some v) ∧
+    (p.set_month v = .ok p1 → p1.month = some v) ∧
+    (p.set_week_from_sun v = .ok p1 → p1.week_from_sun = some v) ∧
+    (p.set_week_from_mon v = .ok p1 → p1.week_from_mon = some v) ∧
+    (p.set_isoweek v = .ok p1 → p1.isoweek = some v) ∧
+    (p.set_ordinal v = .ok p1 → p1.ordinal = some v) ∧
+    (p.set_day v = .ok p1 → p1.day = some v) ∧
+    (p.set_hour12 v = .ok p1 → p1.hour_mod_12 = some (v % 12)) ∧
+    (p.set_minute v = .ok p1 → p1.minute = some v) ∧
+    (p.set_second v = .ok p1 → p1.second = some v) ∧
+    (p.set_nanosecond v = .ok p1 → p1.nanosecond = some v) ∧
+    (p.set_offset v = .ok p1 → p1.offset = some v) ∧
+    (p.set_timestamp v = .ok p1 → p1.timestamp = some v) ∧
+    (p.set_hour v = .ok p1 → p1.hour_div_12 = some (v / 12) ∧ p1.hour_mod_12 = some (v % 12)) :=
+  get_after_set_all p p1 v
 
 /-- no resolver panics: for every record of in-type field values, every `i32` offset argument and
 every fixed-offset zone, each of the six resolvers returns a value or an error kind
